@@ -60,7 +60,9 @@ func (cache *CacheLRU) GetTime(key string) (int64, error) {
 
 func (cache *CacheLRU) Flush() {
 	clear(cache.keys)
+	// Drop the entries instead of leaving nil entries behind in the heap.
 	clear(cache.entries)
+	cache.entries = cache.entries[:0]
 }
 
 func (cache *CacheLRU) Len() int {
